@@ -18,6 +18,7 @@ import KikiVerif.Proofs.NoPanic
 import KikiVerif.Proofs.TermBuild
 import KikiVerif.Proofs.Pipeline
 import KikiVerif.Proofs.Encode
+import KikiVerif.Proofs.Total
 
 namespace KikiVerif.C07
 open KikiVerif KikiVerif.Tokenize KikiVerif.Text
@@ -121,8 +122,29 @@ theorem C07_emission_total {f : Ast.File} {vf : VFile.File} (hv : Validate.valid
     (∃ enc, Encode.encode vf = some enc) ∧ ∀ enc t sha, ∃ m, Emit.moduleOf vf enc t sha = some m :=
   ⟨EmitTotal.encode_total hv hdf, fun enc t sha => EmitTotal.moduleOf_total hv hdf enc t sha⟩
 
+/-- the front-end parse loop stops on every token sequence (no fuel left to chance) -/
+theorem C07_front_parse_halts (toks : List Token) (k : Nat) :
+    ∃ out, FrontParse.parse toks (HaltFront.parseBound toks.length + k) = some out :=
+  HaltFront.front_parse_halts toks k
+
+/-- **`generate` is total, every source text**: there is an amount of fuel (front-end parse bound plus
+`genFuel` of the coded grammar) from which on the pipeline — tokenizer, front-end parser, `cst_to_ast`,
+validation, FIRST fixpoint, closures, LALR worklist, table construction, emission — ends in exactly one of:
+the emitted text, a `KikiErr`, or a table conflict; it neither panics nor loops -/
+theorem C07_generate_total (src sha : Str) :
+    ∃ F, ∀ fuel, F ≤ fuel →
+      match (Generate.stages src sha fuel).stop with
+      | .done => True
+      | .err _ => True
+      | .conflict _ _ _ => True
+      | .panic _ => False
+      | .timeout _ => False :=
+  HaltFront.stages_total src sha
+
 end KikiVerif.C07
 
+#print axioms KikiVerif.C07.C07_generate_total
+#print axioms KikiVerif.C07.C07_front_parse_halts
 #print axioms KikiVerif.C07.bracketScan_no_panic
 #print axioms KikiVerif.C07.C07_handleMain_no_panic
 #print axioms KikiVerif.C07.C07_tokenize_total
